@@ -61,6 +61,15 @@ HANDLERS = [
     ("caller", "function f() { %s log('after-site'); } function c() { try { f(); log('after-call'); } catch (e) { log('caught', desc(e)); } log('resumed'); } c();"),
     ("across-native", "function f() { %s } function c() { try { [1, 2].forEach(function (x) { log('it', x); f(); }); log('after-native'); } catch (e) { log('caught', desc(e)); } log('resumed'); } c();"),
     ("across-two-natives", "function f() { %s } try { [1].map(function (x) { return [2, 3].filter(function (y) { log('it', y); f(); return true; }); }); } catch (e) { log('caught', desc(e)); } log('resumed');"),
+    # the handler sits in script code BETWEEN two native frames: the inner built-in must be abandoned, the outer one must go on
+    ("between-natives", "function f() { %s } var out = [1, 2].map(function (v) { try { [10, 20, 30].forEach(function (w) { log('it', v, w); if (w === 20) { f(); } }); log('after-inner', v); } "
+                        "catch (e) { log('caught', v, desc(e)); return 'c' + v; } finally { log('fin', v); } return 'n' + v; }); log('out', out);"),
+    ("between-natives-finally-only", "function f() { %s } try { [1, 2].forEach(function (v) { try { [5, 6].sort(function (a, b) { log('cmp', v); f(); return 0; }); } finally { log('fin', v); } }); } "
+                                     "catch (e) { log('outer', desc(e)); } log('resumed');"),
+    ("between-three-natives", "function f() { %s } var r = [1].map(function (a) { return [2, 3].filter(function (b) { try { return [4, 5].some(function (c) { log('it', a, b, c); f(); return false; }); } "
+                              "catch (e) { log('caught', b, desc(e)); return b === 3; } }); }); log('r', r);"),
+    ("between-native-and-accessor", "function f() { %s } var o = {get g() { try { [1, 2].forEach(function (x) { log('it', x); f(); }); } catch (e) { log('caught', desc(e)); return 'G'; } return 'N'; }}; "
+                                    "log('vals', [7, 8].map(function (k) { return o.g + k; }));"),
     ("finally-only", "function f() { try { %s } finally { log('fin'); } } try { f(); } catch (e) { log('caught', desc(e)); }"),
     ("catch-rethrow", "function f() { try { %s } catch (e) { log('inner', desc(e)); throw e; } finally { log('fin'); } } try { f(); } catch (e2) { log('outer', desc(e2)); }"),
     ("catch-throws-new", "function f() { try { %s } catch (e) { throw 'NEW'; } finally { log('fin'); } } try { f(); } catch (e2) { log('outer', desc(e2)); }"),
